@@ -244,12 +244,20 @@ def parse_srt_payload(raw_lines, line_no=0):
       else:
         am = _SRT_FONT_ATTR_RE.fullmatch(attrs)
         if am is None:
-          raise GrammarError(cur_line(), f"font tag without a quoted color attribute: {m.group(0)}")
-        val = am.group(1) if am.group(1) is not None else am.group(2)
-        rgba = norm_color(val)
-        if rgba is None:
-          raise GrammarError(cur_line(), f"colour value outside the grammar: {val!r}")
-        tokens, annot = frozenset([color_token(rgba)]), val
+          if re.fullmatch(r'\s+face="[A-Za-z ]*"', attrs):
+            # a font tag that carries no colour: a well-nested tag without effect on the styles of the statement
+            tokens, annot = frozenset(), None
+          else:
+            raise GrammarError(cur_line(), f"font tag without a quoted color attribute: {m.group(0)}")
+        else:
+          val = am.group(1) if am.group(1) is not None else am.group(2)
+          rgba = norm_color(val)
+          if rgba is None:
+            raise GrammarError(cur_line(), f"colour value outside the grammar: {val!r}")
+          tokens, annot = frozenset([color_token(rgba)]), val
+    elif name == "s" and syntax == "angle" and not attrs.strip():
+      # a tag the statement does not name (strike-through): well nested, without effect on the styles of the statement
+      kind, tokens, annot = "other", frozenset(), None
     else:
       raise GrammarError(cur_line(), f"unknown tag {m.group(0)}")
     flush()
